@@ -339,6 +339,21 @@ def s_anc(ex, e, st):
                           Select(Select(anc, ex.rv(args[0])), ex.rv(args[1])))))]
 
 
+def s_owned(ex, e, st):
+    """owned(l): l is the child list (_sections or _props) of an allocated container (ghost owner/kind)"""
+    o, args, _ = _one(ex, e, st)
+    o = o.copy()
+    l = ex.rv(args[0])
+    own = Select(ex.G(o, 'owner', '(Array Int Int)'), l)
+    kind = Select(ex.G(o, 'kind', '(Array Int Int)'), l)
+    SEC, DOC = intlit(ex.cid('BaseSection')), intlit(ex.cid('BaseDocument'))
+    cond = And(Is('VRef', args[0]), ex.alloc_t(o, own),
+               Or(And(Eq(kind, intlit(0)), Or(Eq(cls_of(own), SEC), Eq(cls_of(own), DOC)),
+                      Eq(Select(ex.H(o, '_sections'), own), VRef(l))),
+                  And(Eq(kind, intlit(1)), Eq(cls_of(own), SEC), Eq(Select(ex.H(o, '_props'), own), VRef(l)))))
+    return [(o, VBool(cond))]
+
+
 def s_is_ref(ex, e, st):
     o, args, _ = _one(ex, e, st)
     return [(o, VBool(Is('VRef', args[0])))]
@@ -346,7 +361,7 @@ def s_is_ref(ex, e, st):
 
 bi.SPEC_BUILTINS.update({
     'item': s_item, 'llen': s_llen, 'old': s_old, 'field': s_field, 'canon_uuid': s_canon,
-    'uuid_ok': s_uuid_ok, 'is_ref': s_is_ref, 'anc': s_anc,
+    'uuid_ok': s_uuid_ok, 'is_ref': s_is_ref, 'anc': s_anc, 'owned': s_owned,
     'isSec': s_isclass('BaseSection'), 'isProp': s_isclass('BaseProperty'),
     'isDoc': s_isclass('BaseDocument'), 'isSL': s_isclass('SmartList'),
 })
